@@ -33,6 +33,8 @@ def register(PROPS):
                         '+ the whole quick bound under ASan+bounds',
         },
         'drivers': [
+            D('c02_zonemix', ['mode=exdate', 'maxlist=4'], ['mode=exdate', 'maxlist=5'], label='zonemix-exdate', shards=4),
+            D('c02_zonemix', ['mode=exdate', 'maxlist=3'], label='zonemix-exdate-asan', shards=4, variant='asan'),
             D('c02_exdate', ['uni=0', _ALL], shards=64, label='uni0'),
             D('c02_exdate', ['uni=1', _ALL], shards=32, label='uni1', tiers=('thorough',)),
             D('c02_exdate', ['uni=2', _ALL], shards=32, label='uni2', tiers=('thorough',)),
